@@ -178,10 +178,11 @@ func (k Keeper) RefundEarnedFees(ctx sdk.Context) error {
 	defer iterator.Close()
 
 	for ; iterator.Valid(); iterator.Next() {
-		provider := iterator.Key()[1:]
-
 		var earnedFee sdk.Coin
 		k.cdc.MustUnmarshalBinaryBare(iterator.Value(), &earnedFee)
+
+		key := iterator.Key()
+		provider := sdk.AccAddress(key[1 : len(key)-len(earnedFee.Denom)])
 
 		if err := k.bankKeeper.SendCoinsFromModuleToAccount(
 			ctx, types.RequestAccName, provider, sdk.NewCoins(earnedFee),
